@@ -107,13 +107,27 @@ def case_direct(col, p):
             kw['het_ascertained'] = het
         else:
             kw['force_direct'] = True
+        snap = phi.copy()
         fs = dadi.Spectrum.from_phi(phi, list(ns), grids, **kw)
         col.tick(transitions=1)
         n += 1
+        if not np.array_equal(phi, snap):
+            col.violation('C05:from_phi:direct%dD%s:density_modified' % (d, ':het_' + het if het else ''), dict(p, unit=idx), {'maxchange': float(np.abs(phi - snap).max())})
+            phi = snap
         got = np.asarray(fs.data)
         ex = Ds[0][:, idx[0]]
         for k in range(1, d):
             ex = np.multiply.outer(ex, Ds[k][:, idx[k]])
+        if het and d <= 3:
+            # no inbreeding at all (every F exactly 0) is plain sampling, with the same ascertainment option
+            try:
+                fs0 = dadi.Spectrum.from_phi_inbreeding(phi, list(ns), grids, [0] * d, [2] * d, mask_corners=False, het_ascertained=het)
+                col.tick(transitions=1)
+                e0 = float(np.abs(np.asarray(fs0.data) - ex).max())
+                if not e0 <= tol * max(float(np.abs(ex).max()), 1e-300):
+                    col.violation('C05:from_phi_inbreeding:F0:het_%s:differs_from_plain_sampling' % het, dict(p, unit=idx), {'maxerr': e0})
+            except Exception as e:
+                col.violation('C05:from_phi_inbreeding:F0:het_%s:raises' % het, dict(p, unit=idx), '%s: %s' % (type(e).__name__, e))
         err = float(np.abs(got - ex).max())
         sc = max(float(np.abs(ex).max()), 1e-300)
         if not err <= tol * sc:
